@@ -15,7 +15,7 @@ vars == <<heap, alias, bufs, view, stale, last, anc, mayst, hist>>
 
 Base1 == <<"i8", <<<<10, 11>>, <<>>, <<12, 13, 14>>>>>>
 Base2 == <<"i8", <<<<>>, <<20>>, <<21, 22>>, <<>>>>>>
-Base3 == <<"i8", <<<<30, 31>>, <<32>>>>>>                      \* no empty row: the library's shortcuts for such shapes
+Base3 == <<"i8", <<<<30, 31, 32>>, <<33, 34>>>>>>                    \* no empty row: the library's shortcuts for such shapes
 Bases == {Base1, Base2, Base3}
 \* a float column vector fitting handle h, with an infinity in its first entry
 ColFor(h) == <<"col", "f8", [i \in 1..Len(heap[h][2]) |-> IF i = 1 THEN <<1, 0>> ELSE <<i, 1>>]>>
